@@ -3,6 +3,7 @@ use crate::trace::Args;
 pub mod c07_montgomery;
 pub mod selftest;
 pub mod c01;
+pub mod factor_common;
 pub mod c02;
 pub mod c03;
 pub mod c04;
